@@ -321,7 +321,7 @@ fn main() {
                 a
             });
         for (sig, (count, msg, w)) in &tally.groups {
-            ctx.violation(sig, format!("({count} cases) {msg}"), w.clone());
+            ctx.violation_n(sig, msg.clone(), w.clone(), *count);
         }
         ctx.cov("evaluations", tally.evaluations);
         ctx.cov("generator_cardinality", json!({"queries": qs.len(), "graphs": gs.len(), "values": vals.len(), "evaluations": tally.evaluations}));
